@@ -113,11 +113,11 @@ def m_remove_member(prog, rng):
         return None
     q = prog.clone()
     t2 = q.find_type(t.name)
-    holders = [h for h in _all_field_lists(t2) if len([f for f in h.fields if f.name]) >= 2]
+    holders = [h for h in _all_field_lists(t2) if len([f for f in h.fields if f.name and not f.static]) >= 2]
     if not holders:
         return None
     holder = rng.choice(holders)
-    named = [f for f in holder.fields if f.name and not (isinstance(f.type, Array) and None in f.type.dims)]
+    named = [f for f in holder.fields if f.name and not f.static and not (isinstance(f.type, Array) and None in f.type.dims)]
     if len(named) < 2:
         return None
     victim = rng.choice(named)
@@ -136,7 +136,7 @@ def m_reorder_members(prog, rng):
         return None
     holder = rng.choice(holders)
     idx = [k for k in range(len(holder.fields) - 1)
-           if holder.fields[k].name and holder.fields[k + 1].name
+           if holder.fields[k].name and holder.fields[k + 1].name and not holder.fields[k].static and not holder.fields[k + 1].static
            and holder.fields[k].bits is None and holder.fields[k + 1].bits is None
            and not (isinstance(holder.fields[k + 1].type, Array) and None in holder.fields[k + 1].type.dims)]
     if not idx:
@@ -161,13 +161,15 @@ def m_change_member_type(prog, rng):
     if not hs:
         return None
     holder = rng.choice(hs)
-    cands = [f for f in holder.fields if f.name and f.bits is None and isinstance(f.type, Builtin)]
+    cands = [f for f in holder.fields if f.name and f.bits is None and isinstance(f.type, Builtin) and not f.static]
     if not cands:
         return None
     f = rng.choice(cands)
     old = f.type.name
-    # a builtin of a different size: neither a compatible typedef nor a mere signedness tweak
-    new = rng.choice([b for b in _SIZES if _SIZES[b] != _SIZES[old]])
+    # a builtin of a different size, or of the same size and the other kind (integer <-> floating point): neither a
+    # compatible typedef nor a mere signedness tweak
+    fp = ("float", "double")
+    new = rng.choice([b for b in _SIZES if _SIZES[b] != _SIZES[old] or ((b in fp) != (old in fp))])
     f.type = Builtin(new)
     return q, Expect("change-member-type", affected=[u.name for u in users], type_name=t.key(), entity=f.name,
                      detail="%s -> %s" % (old, new), nested=holder is not t2)
